@@ -4,6 +4,7 @@ CONSTANTS
   ValidateIndices = FALSE
   GuardCombine = TRUE
   GuardControl = TRUE
+  SafeDecode = TRUE
   NoSigpipe = TRUE
   MaxHist = 4
 INVARIANTS Reach_PoisonHeldThenFetch
